@@ -108,7 +108,7 @@ def main() -> int:
         return 0 if row.get("ok") else 1
     if sys.argv[1] == "check":
         ids = sys.argv[2:]
-        dirs = sorted(p for p in (ROOT / "seeded").iterdir() if p.is_dir() and (not ids or p.name in ids))
+        dirs = sorted(p for p in (ROOT / "seeded").iterdir() if p.is_dir() and (p / "meta.json").exists() and (not ids or p.name in ids))
         missed = 0
         for sd in dirs:
             row = check(sd)
